@@ -41,6 +41,27 @@ def scenarios():
         return f
     for m in ('dd', 'dn', 'nd', 'nn'):
         S['ibvp_' + m] = ibvp(m)
+
+    # single-network / ith-output-unit mode (a shared 2-output network, both unit indices)
+    def unit(base, k, j):
+        def f(w):
+            class W:
+                symbolic = w.symbolic
+                def __getattr__(s, a): return getattr(w, a)
+                def net(s, name, n_in, n_out=1): return w.net(name + f'_{k}', n_in, k)
+            import neurodiffeq.conditions as C
+            orig = C.BaseCondition.__init__
+            def init(self):
+                orig(self); self.ith_unit = j
+            C.BaseCondition.__init__ = init
+            try:
+                return S[base](W())
+            finally:
+                C.BaseCondition.__init__ = orig
+        return f
+    for base in ['bvp2d'] + ['ibvp_' + m for m in ('dd', 'dn', 'nd', 'nn')]:
+        for j in range(2):
+            S[f'{base}_u{j}'] = unit(base, 2, j)
     return S
 
 
@@ -58,32 +79,33 @@ def generate(seeds=(1, 2, 3), tier='quick'):
         c = ctxs[name]
         return ('app', c.syms.index('F'), mi, (('var', c.vars.index(a)), ('var', c.vars.index(b))))
 
-    n = 'bvp2d'
-    rv = ['x', 'y', 'x0', 'x1', 'y0', 'y1']
-    hy = [('hx', 'x0 ≠ x1'), ('hy', 'y0 ≠ y1')]
-    g.thm_eq('bvp2d_edge_x0', rv, ['x0', 'y', 'x0', 'x1', 'y0', 'y1'], n, trees[n], F(n, 'x0', 'y'), hyps=hy,
-             what='DirichletBVP2D: u(x0, y) = F(x0, y) for every y on the edge')
-    g.thm_eq('bvp2d_edge_x1', rv, ['x1', 'y', 'x0', 'x1', 'y0', 'y1'], n, trees[n], F(n, 'x1', 'y'), hyps=hy,
-             what='DirichletBVP2D: u(x1, y) = F(x1, y) for every y')
-    g.thm_eq('bvp2d_edge_y0', rv, ['x', 'y0', 'x0', 'x1', 'y0', 'y1'], n, trees[n], F(n, 'x', 'y0'), hyps=hy,
-             what='DirichletBVP2D: u(x, y0) = F(x, y0) for every x')
-    g.thm_eq('bvp2d_edge_y1', rv, ['x', 'y1', 'x0', 'x1', 'y0', 'y1'], n, trees[n], F(n, 'x', 'y1'), hyps=hy,
-             what='DirichletBVP2D: u(x, y1) = F(x, y1) for every x')
+    for sfx in ['', '_u0', '_u1']:
+        n = 'bvp2d' + sfx
+        rv = ['x', 'y', 'x0', 'x1', 'y0', 'y1']
+        hy = [('hx', 'x0 ≠ x1'), ('hy', 'y0 ≠ y1')]
+        g.thm_eq(f'{n}_edge_x0', rv, ['x0', 'y', 'x0', 'x1', 'y0', 'y1'], n, trees[n], F(n, 'x0', 'y'), hyps=hy,
+                 what='DirichletBVP2D: u(x0, y) = F(x0, y) for every y on the edge')
+        g.thm_eq(f'{n}_edge_x1', rv, ['x1', 'y', 'x0', 'x1', 'y0', 'y1'], n, trees[n], F(n, 'x1', 'y'), hyps=hy,
+                 what='DirichletBVP2D: u(x1, y) = F(x1, y) for every y')
+        g.thm_eq(f'{n}_edge_y0', rv, ['x', 'y0', 'x0', 'x1', 'y0', 'y1'], n, trees[n], F(n, 'x', 'y0'), hyps=hy,
+                 what='DirichletBVP2D: u(x, y0) = F(x, y0) for every x')
+        g.thm_eq(f'{n}_edge_y1', rv, ['x', 'y1', 'x0', 'x1', 'y0', 'y1'], n, trees[n], F(n, 'x', 'y1'), hyps=hy,
+                 what='DirichletBVP2D: u(x, y1) = F(x, y1) for every x')
 
-    rv = ['x', 't', 'x0', 'x1', 'tm']
-    hy = [('hx', 'x0 ≠ x1')]
-    for m in ('dd', 'dn', 'nd', 'nn'):
-        n = 'ibvp_' + m
-        g.thm_eq(f'{n}_initial', rv, ['x', 'tm', 'x0', 'x1', 'tm'], n, trees[n], F(n, 'x', 'tm'), hyps=hy,
-                 what=f'IBVP1D {m.upper()}: u(x, t_min) = u0(x) for all x')
-        for side, pt, kind in (('left', 'x0', m[0]), ('right', 'x1', m[1])):
-            envt = [pt, 't', 'x0', 'x1', 'tm']
-            if kind == 'd':
-                g.thm_eq(f'{n}_{side}', rv, envt, n, trees[n], F(n, pt, 't'), hyps=hy,
-                         what=f'IBVP1D {m.upper()}: u({pt}, t) = prescribed boundary value for all t')
-            else:
-                g.thm_deriv(f'{n}_{side}', rv, envt, 0, 'x', n, trees[n], F(n, pt, 't', (1, 0)), hyps=hy,
-                            what=f'IBVP1D {m.upper()}: du/dx({pt}, t) = prescribed boundary derivative for all t, every smooth network')
+        rv = ['x', 't', 'x0', 'x1', 'tm']
+        hy = [('hx', 'x0 ≠ x1')]
+        for m in ('dd', 'dn', 'nd', 'nn'):
+            n = 'ibvp_' + m + sfx
+            g.thm_eq(f'{n}_initial', rv, ['x', 'tm', 'x0', 'x1', 'tm'], n, trees[n], F(n, 'x', 'tm'), hyps=hy,
+                     what=f'IBVP1D {m.upper()}{sfx}: u(x, t_min) = u0(x) for all x')
+            for side, pt, kind in (('left', 'x0', m[0]), ('right', 'x1', m[1])):
+                envt = [pt, 't', 'x0', 'x1', 'tm']
+                if kind == 'd':
+                    g.thm_eq(f'{n}_{side}', rv, envt, n, trees[n], F(n, pt, 't'), hyps=hy,
+                             what=f'IBVP1D {m.upper()}{sfx}: u({pt}, t) = prescribed boundary value for all t')
+                else:
+                    g.thm_deriv(f'{n}_{side}', rv, envt, 0, 'x', n, trees[n], F(n, pt, 't', (1, 0)), hyps=hy,
+                                what=f'IBVP1D {m.upper()}{sfx}: du/dx({pt}, t) = prescribed boundary derivative for all t, every smooth network')
     return g, stats
 
 
@@ -115,17 +137,19 @@ def search(seed, tier):
         if min(abs(x1 - x0), abs(y1 - y0)) < 1e-3 * (1 + abs(x0) + abs(y0)):
             continue
         torch.manual_seed(rng.randrange(1 << 30))
-        net = FCNN(2, 1, hidden_units=(8, 8))
+        unit = rng.choice([None, None, 0, 1])
+        net = FCNN(2, 1 if unit is None else 2, hidden_units=(8, 8))
         n = 4
         full = lambda v: torch.full((n, 1), v, requires_grad=True)
         s = torch.tensor([[rng.uniform(0, 1)] for _ in range(n)])
         cond = DirichletBVP2D(x0, lambda y: F(full(x0), y), x1, lambda y: F(full(x1), y),
                               y0, lambda x: F(x, full(y0)), y1, lambda x: F(x, full(y1)))
+        cond.ith_unit = unit
         ys = (y0 + s * (y1 - y0)).requires_grad_(True); xs = (x0 + s * (x1 - x0)).requires_grad_(True)
         for nm, X, Y in (('x0', full(x0), ys), ('x1', full(x1), ys), ('y0', xs, full(y0)), ('y1', xs, full(y1))):
             got = cond.enforce(net, X, Y).detach(); want = F(X, Y).detach()
             if not torch.allclose(got, want, rtol=1e-7, atol=1e-7 * (1 + float(want.abs().max()))):
-                found.append(dict(case='bvp2d', edge=nm, x0=x0, x1=x1, y0=y0, y1=y1, F=[a, b, c, d], s=s.reshape(-1).tolist(),
+                found.append(dict(case='bvp2d', unit=unit, edge=nm, x0=x0, x1=x1, y0=y0, y1=y1, F=[a, b, c, d], s=s.reshape(-1).tolist(),
                                   got=got.reshape(-1).tolist(), want=want.reshape(-1).tolist()))
         tm = draw()
         ts = (tm + 3 * s).requires_grad_(True)
@@ -134,7 +158,15 @@ def search(seed, tier):
             kw['x_min_val' if m[0] == 'd' else 'x_min_prime'] = (lambda t: F(full(x0), t)) if m[0] == 'd' else (lambda t: Fx(full(x0), t))
             kw['x_max_val' if m[1] == 'd' else 'x_max_prime'] = (lambda t: F(full(x1), t)) if m[1] == 'd' else (lambda t: Fx(full(x1), t))
             cond = IBVP1D(x0, x1, tm, lambda x: F(x, full(tm)), **kw)
-            got = cond.enforce(net, xs, full(tm)).detach(); want = F(xs, full(tm)).detach()
+            cond.ith_unit = unit
+            try:
+                got = cond.enforce(net, xs, full(tm)).detach(); want = F(xs, full(tm)).detach()
+            except Exception as e:
+                found.append(dict(case='ibvp_' + m, unit=unit, error=f'{type(e).__name__}: {e}', x0=x0, x1=x1, tm=tm))
+                continue
+            if got.shape != want.shape:
+                found.append(dict(case='ibvp_' + m, unit=unit, violated='output is not a single column', shape=list(got.shape)))
+                continue
             if not torch.allclose(got, want, rtol=1e-7, atol=1e-7 * (1 + float(want.abs().max()))):
                 found.append(dict(case='ibvp_' + m, where='initial', x0=x0, x1=x1, tm=tm, F=[a, b, c, d],
                                   got=got.reshape(-1).tolist(), want=want.reshape(-1).tolist()))
